@@ -309,10 +309,46 @@ pub fn fut_history<F: FutFl, const DEPTH: usize>(cap: u64, n: u8) {
     let mut saw_end = false;
     let mut step = 0;
     set_task(1);
+    // Concrete warm-up: fill the ring, one start_send that parks (NotReady), drain with polls.
+    // It laps the ring and - more importantly for the encoding - makes the producer-side parked list
+    // allocate its buffer at a concrete point; a first push under a solver-chosen condition would
+    // make the VecDeque's capacity symbolic and every later push a symbolic-size reallocation.
+    {
+        let mut i = 0;
+        while i < n {
+            let id = next_id;
+            next_id += 1;
+            match F::start_send(w.tx[0].as_mut().unwrap(), F::P::mk(id)) {
+                SS::Ready => {
+                    log[sent as usize % 12] = id;
+                    sent += 1;
+                }
+                _ => assert!(false, "C15: start_send into a queue with room did not accept the value"),
+            }
+            i += 1;
+        }
+        let id = next_id;
+        next_id += 1;
+        match F::start_send(w.tx[0].as_mut().unwrap(), F::P::mk(id)) {
+            SS::NotReady(v) => assert!(v.id() == id, "C15: start_send returned a different message in NotReady"),
+            _ => assert!(false, "C15: start_send into a full queue did not return NotReady"),
+        }
+        let mut i = 0;
+        while i < n {
+            match F::poll(w.rx[0].as_mut().unwrap()) {
+                Some(Some(v)) => {
+                    assert!(v.id() == log[cur as usize % 12], "C15: the stream yielded a value the model does not predict");
+                    cur += 1;
+                }
+                _ => assert!(false, "C15: poll on a non-empty queue did not yield a value"),
+            }
+            i += 1;
+        }
+    }
     // skeleton (see scen_seq::history): fixed operation kinds, the solver decides per step whether
-    // the step is executed:  start_send start_send try_recv start_send poll try_send poll_complete
-    //                        drop_tx poll poll
-    let skel: [u8; 10] = [0, 0, 2, 0, 1, 3, 5, 4, 1, 1];
+    // the step is executed:  start_send start_send try_recv start_send try_send poll_complete poll
+    //                        poll drop_tx poll      (the polls that may park come after the sends)
+    let skel: [u8; 10] = [0, 0, 2, 0, 3, 5, 1, 1, 4, 1];
     while step < DEPTH {
         let c: u8 = skel[step];
         // the sender's drop (structural) always runs, every other step is optional
@@ -463,7 +499,7 @@ park!(c14_mp_send_vs_droprx, hk_c14_mp_send_vs_droprx, MpF00, 5, 0, 1, 1, 1);
 park!(c14_bc_two_polls, hk_c14_bc_two_polls, BcF00, 6, 0, 2, 2, 3);
 park!(c14_bc_send_vs_upoll, hk_c14_bc_send_vs_upoll, BcF00, 7, 0, 1, 1, 1);
 park!(c14_bc_drop_stream_repoll, hk_c14_bc_drop_stream_repoll, BcF00, 8, 0, 1, 1, 1);
-park!(c15_bc_fresh_poll, hk_c15_bc_fresh_poll, BcF00, 9, 0, 2, 2, 1);
+park!(c15_bc_fresh_poll, hk_c15_bc_fresh_poll, BcF00, 9, 0, 2, 2, 0);
 park!(c14_bc10_poll_vs_send, hk_c14_bc10_poll_vs_send, BcF10, 1, 0, 2, 2, 1);
 park!(c14_mp11_send_vs_poll, hk_c14_mp11_send_vs_poll, MpF11, 2, 0, 1, 1, 1);
 
